@@ -35,7 +35,10 @@ TxtIndexValues == {"0", "65536", "3000000", "4294967295", "18446744073709551615"
 
 Descriptors ==
        {[op |-> "truncate_at"], [op |-> "truncate_inside"], [op |-> "empty"], [op |-> "bad_first_byte"],
-        [op |-> "append_garbage"], [op |-> "oversize"], [op |-> "duplicate_datagram"], [op |-> "drop_datagram"]}
+        [op |-> "append_garbage"], [op |-> "oversize"], [op |-> "duplicate_datagram"], [op |-> "drop_datagram"],
+        \* a compressed split reply in which every field is legal (the declared size is small, the fragments are complete)
+        \* and whose bzip2 stream expands to BombMiB: "proportion to the bytes actually received" is about the stream, too
+        [op |-> "decompression_bomb"]}
   \cup {[op |-> "set_num", b |-> b] : b \in NumBoundaries}
   \cup {[op |-> "set_textnum", b |-> b] : b \in TextNumBoundaries}
   \cup {[op |-> "set_lit_byte", v |-> v] : v \in LitByteValues}          \* counts, flags, totals, indices, headers
@@ -59,6 +62,9 @@ AmplifyRepeat(item) == item.k = "txt" \/ (item.k = "f" /\ item.ty \in StrTypes)
 \* fragment arrives first.  The split-packet framing fields (id, size, decompressed size, CRC, total, number) are items like
 \* any other for the item-wise descriptors.
 ExtremeReversed == [op |-> "extreme_reversed", of |-> {"set_num", "set_textnum", "set_lit_byte", "set_txt_index"}]
+
+BombMiB == 300
+BombDeclared == {4096, 8 * 1024 * 1024 - 1}      \* declared sizes (the second one just below the largest a client accepts)
 
 \* which items a descriptor applies to
 AppliesTo(d, item) ==
